@@ -53,3 +53,9 @@ reg("C22", "model_checking",
     "R: generated programs deriving thousands of tuples with autoinc() in parallelisable rules run in the interpreter and compiled at -j1..16 with seeded perturbation; "
     "TLC computes the model of the program without the counter column and judges the counter column of every real run with the uniqueness predicate.",
     EVAL_NOTE + " OpenMP schedules are perturbed, not enumerated.", "DESIGN.md 9 C22")
+reg("C10", "model_checking",
+    "TLC evaluates the result predicate ChoiceOK (spec/Choice.tla: functional, sound, maximal, other strata recomputed with spec/Datalog.tla's immediate-consequence operator) on the final database of every real run",
+    "The contract is a set of admissible outcomes, so the real final database (every relation written out) of each run - interpreter and compiled, -j1..16 with seeded perturbation, "
+    "several EDBs per generated program with single/multiple keys, recursive and non-recursive - is judged by TLC against the three clauses of the property; "
+    "strata without choice relations must be reproduced exactly from that database.",
+    EVAL_NOTE + " 'Derivable' means head instance of a clause over the final database as computed by Datalog.tla's ClauseTP.", "DESIGN.md 9 C10")
